@@ -44,6 +44,21 @@ def _remap(node, lo, bo, po):
     return out
 
 
+def _fn_items(x, strip_lt):
+    """Paths of the functions named as values (fn items) anywhere inside a block's JSON."""
+    out = []
+    if isinstance(x, dict):
+        f = x.get("fn")
+        if x.get("k") == "const" and isinstance(f, dict) and f.get("def"):
+            out.append(strip_lt(f.get("res", f["def"])))
+        for v in x.values():
+            out.extend(_fn_items(v, strip_lt))
+    elif isinstance(x, list):
+        for v in x:
+            out.extend(_fn_items(v, strip_lt))
+    return out
+
+
 def inline_new_helpers(raw, vocabulary, strip_lt, log=None):
     bodies = raw["bodies"]
     by_path = {}
@@ -83,6 +98,10 @@ def inline_new_helpers(raw, vocabulary, strip_lt, log=None):
                 t = blk["term"]
                 if t["k"] == "call":
                     cp, fn = _callee_path(t, strip_lt)
+                    if cp in new:
+                        es.add(cp)
+                # a function handed on as a value (`.any(Self::helper)`) is called by whoever receives it
+                for cp in _fn_items(blk, strip_lt):
                     if cp in new:
                         es.add(cp)
         edges[p] = es
